@@ -145,6 +145,14 @@ func placements() []placement {
 			}
 			return "container c { leaf k { type string; } }", ""
 		}, "/c", true},
+		// the target already carries a must with the very same text (written in a): the must added by
+		// b's deviation is another statement, compiled with b's prefixes
+		{"deviation-from-b-adding-a-must-the-target-already-has", "b", "urn:a", func(s string) (string, string) {
+			if strings.HasPrefix(s, "must") {
+				return "container c { leaf k { type string; } " + s + " }", "deviation /a:c { deviate add { " + s + " } }"
+			}
+			return "container c { leaf k { type string; } }", ""
+		}, "/c", true},
 		{"refine-must-in-b", "b", "urn:b", func(s string) (string, string) {
 			return "grouping g { container gc { leaf k { type string; } } }", "container host { leaf x { type string; } uses a:g { refine gc { " + s + " } } }"
 		}, "/host/gc", false},
@@ -306,6 +314,17 @@ func check(cr caseRec) (vs []engine.Violation, outcome string) {
 			return nil, "unsettled-belongs-to-prefix"
 		}
 	}
+	if cr.Placement == "deviation-from-b-adding-a-must-the-target-already-has" {
+		// the same text stands in module a as well: it has to be valid there too, and the node ends
+		// up with TWO musts, one compiled with each module's prefixes
+		for _, p := range e.Pfx {
+			if _, known := tableA[p]; !known {
+				want = false
+			}
+		}
+		alsoTable = tableA
+		defer func() { alsoTable = nil }()
+	}
 	var own expr
 	anyFile := false
 	if cr.OwnKind != "" {
@@ -345,7 +364,7 @@ func check(cr caseRec) (vs []engine.Violation, outcome string) {
 		if strings.Contains(mods["a"], "include s;") {
 			file = "s.yang"
 		}
-		if pl.Name == "deviation-from-b" || anyFile {
+		if strings.HasPrefix(pl.Name, "deviation-from-b") || anyFile {
 			// the statement ends up on a node of module a, the text is in b: which location to name is unspecified
 			return vs, "error"
 		}
@@ -380,6 +399,10 @@ func mk2(cr caseRec, mods map[string]string) func(key, witness, detail string) e
 		return engine.Violation{Key: key, Witness: witness, Detail: detail + "\n" + mods["a"] + "\n" + mods["b"] + mods["s"], Harness: "scope", Replay: engine.JSON(cr)}
 	}
 }
+
+// alsoTable: set while a case is checked in which the same statement text also stands in another
+// module (its names are then compiled once with each module's prefix table).
+var alsoTable map[string]string
 
 func checkNode(d, node, kind string, e expr, table map[string]string, endsIn string, unspec bool, cls string, mkv func(key, witness, detail string) engine.Violation) (vs []engine.Violation) {
 	mk := func(key, detail string) {
@@ -428,6 +451,12 @@ func checkNode(d, node, kind string, e expr, table map[string]string, endsIn str
 			mk("name-not-in-machine:"+cls, "no Name-Push for "+n+" in "+line)
 			continue
 		}
+		if alsoTable != nil && pfx != "" && alsoTable[pfx] != wantNs {
+			if !got[n][wantNs] || !got[n][alsoTable[pfx]] || len(got[n]) != 2 {
+				mk("wrong-namespace:"+cls+":one-of-two-statements", fmt.Sprintf("name %s (prefix %q): the two musts with this text must be compiled with %s and %s; namespaces in the machines: %v", n, pfx, wantNs, alsoTable[pfx], got[n]))
+			}
+			continue
+		}
 		if !got[n][wantNs] || len(got[n]) != 1 {
 			var g []string
 			for k := range got[n] {
@@ -463,7 +492,7 @@ func run(c *engine.Ctx) {
 			if kind == "path" || kind == "upath" {
 				n = len(paths)
 			}
-			if pl.Name == "typedef-of-a-used-from-b" && kind != "path" && kind != "upath" || pl.Name == "deviation-from-b" && kind == "when" || pl.Name == "refine-must-in-b" && kind != "must" && kind != "must2" {
+			if pl.Name == "typedef-of-a-used-from-b" && kind != "path" && kind != "upath" || pl.Name == "deviation-from-b" && kind == "when" || pl.Name == "refine-must-in-b" && kind != "must" && kind != "must2" || pl.Name == "deviation-from-b-adding-a-must-the-target-already-has" && kind != "must" {
 				continue
 			}
 			for i := 0; i < n; i++ {
@@ -471,7 +500,7 @@ func run(c *engine.Ctx) {
 					return
 				}
 				for _, cf := range []bool{false, true} {
-					if cf && (kind == "rawwhen" || pl.Name == "typedef-of-a-used-from-b" || pl.Name == "deviation-from-b" || pl.Name == "refine-must-in-b") {
+					if cf && (kind == "rawwhen" || pl.Name == "typedef-of-a-used-from-b" || strings.HasPrefix(pl.Name, "deviation-from-b") || pl.Name == "refine-must-in-b") {
 						continue
 					}
 					cr := caseRec{Placement: pl.Name, Kind: kind, Expr: i, ConfigFalse: cf}
